@@ -128,7 +128,8 @@ def handle : Handler := fun s =>
     let tags := [s!"masters{srcs.length}"] ++ (if divergent then ["divergent"] else []) ++
       (if missing then ["missing-in-some"] else []) ++ (if zero then ["zero-pair"] else []) ++
       (if exc then ["exception"] else []) ++ (if overlap then ["classes-overlap"] else []) ++
-      (if iPairs.any (·.isCC) then ["class-class"] else [])
+      (if iPairs.any (·.isCC) then ["class-class"] else []) ++
+      (if kernedWhereDivergent srcs then ["hyp-holds"] else ["hyp-fails"])
     let detail :=
       match bad with
       | some (i, g₁, g₂, got, want) => s!"master {i} pair ({g₁},{g₂}): emitted pairs give {got}, UFO lookup rounds to {want}"
@@ -314,7 +315,8 @@ def handleE2E : Handler := fun s =>
         let tags := [s!"axes{d.axes.length}", s!"kernmasters{srcs.length}"] ++ (if divergent then ["divergent"] else []) ++
           (if overlap then ["classes-overlap"] else []) ++ (if f.ivs.isSome then ["variable-kern"] else []) ++
           (if model.any (·.isCC) then ["class-class"] else []) ++ [s!"subtables{nSubs}"] ++
-          (if kms.length < (d.masters.filter (!·.sparse)).length then ["kernless-master"] else [])
+          (if kms.length < (d.masters.filter (!·.sparse)).length then ["kernless-master"] else []) ++
+          (if kernedWhereDivergent srcs then ["hyp-holds"] else ["hyp-fails"])
         let nt := srcs.length ≥ 2 && hasKern && srcs.any fun s => !s.groups1.isEmpty || !s.groups2.isEmpty
         match badL, badD with
         | some msg, _ => { corr := some corrL, oracle := some false, nontrivial := nt, tags,
